@@ -2460,6 +2460,131 @@ def run_cidsec(ctx: C.Ctx) -> None:
     b.flush()
 
 
+# =========================================================================== round 6: ToUnicode from BYTES
+
+SEPS = [b" ", b" ", b"\n", b"\r\n", b"\t", b"\x00", b"\x0c", b"  ", b" % c <41> [\n", b"%\r"]
+
+
+def spell_string(rng, bs: bytes, strict: bool) -> bytes:
+    r = rng.random()
+    if r < 0.2:      # literal string spelling
+        return b"(" + b"".join(bytes([c]) if (48 <= c < 58 or 65 <= c < 91 or 97 <= c < 123) else b"\\%03o" % c
+                               for c in bs) + b")"
+    h = bs.hex()
+    if r < 0.5:
+        h = h.upper()
+    if r < 0.35 and h:
+        i = rng.randrange(len(h) + 1)
+        h = h[:i] + rng.choice([" ", "\n", "\t "]) + h[i:]
+    if not strict and h and h[-1] == "0" and rng.random() < 0.1:
+        h = h[:-1]                       # odd number of digits: the last one is padded with 0 (7.3.4.3)
+    return b"<" + h.encode() + b">"
+
+
+def spell_tok(rng, t, strict: bool) -> bytes:
+    k = t[0]
+    if k == "s":
+        return spell_string(rng, t[1], strict)
+    if k == "i":
+        v = t[1]
+        r = rng.random()
+        return (b"+%d" % v) if (v >= 0 and r < 0.1) else (b"%s%03d" % (b"-" if v < 0 else b"", abs(v))) if r < 0.2 \
+            else b"%d" % v
+    if k == "n":
+        nm = t[1]
+        if nm and rng.random() < 0.2:
+            i = rng.randrange(len(nm))
+            nm = nm[:i] + b"#%02X" % nm[i] + nm[i + 1:]
+        return b"/" + nm
+    if k == "a":
+        return b"[" + spell_seq(rng, t[1], strict) + b"]"
+    if k == "k":
+        return t[1].encode()
+    return rng.choice([b"1.5", b".5", b"-2."])
+
+
+def self_delimiting(t) -> bool:
+    return t[0] in ("s", "a")
+
+
+def spell_seq(rng, toks, strict: bool) -> bytes:
+    out = b""
+    for i, t in enumerate(toks):
+        w = spell_tok(rng, t, strict)
+        if i > 0:
+            prev = toks[i - 1]
+            tight = self_delimiting(prev) or w[:1] in (b"<", b"[", b"(", b"/")
+            out += b"" if (tight and rng.random() < 0.3) else rng.choice(SEPS)
+        out += w
+    return out
+
+
+def tub_outcome(data: bytes) -> str:
+    got, e = call(lambda: impl_tounicode(data))
+    return map_line(got) if e is None else exc_line(e)
+
+
+def check_tubytes(ctx: C.Ctx, b: "Batch", data: bytes, sections, kind: str, origin="gen") -> None:
+    impl_out = tub_outcome(data)
+    inp = {"group": "tubytes", "data": data.hex(), "sections": [sec_word(x) for x in sections] if sections else None}
+    ctx.case(("tub", data), impl_out != "M -", sample=inp if origin == "gen" else None, branch="tub:" + kind)
+    if ctx.driver is not None:
+        out = ctx.driver.ask(["tub " + (data.hex() or "-")])[0] if origin != "gen" else None
+        if origin == "gen":
+            b.lines.append("tub " + (data.hex() or "-"))
+            b.meta.append(("tub", "tubytes.model", inp, impl_out))
+        elif out != "outside" and out != impl_out:
+            ctx.disagree("tubytes.model", inp, impl_out, out)
+    if sections is not None:
+        m, flags = spec_tounicode(sections)
+        if in_domain(flags) and impl_out != map_line(m):
+            ctx.fail(C.Failure("ToUnicode CMap read from the bytes of a conformant spelling (white space, comments, "
+                               "hex case, literal strings, minimal delimiters) differs from the map it defines",
+                               inp, map_line(m), impl_out,
+                               {"group": "tubytes", "exc": impl_out[2:] if impl_out.startswith("E ") else None}))
+
+
+def flush_tub(ctx: C.Ctx, b: "Batch") -> None:
+    """As Batch.flush, but the model may answer `outside` (input leaves the modelled object grammar)."""
+    if ctx.driver is None or not b.lines:
+        b.lines, b.meta = [], []
+        return
+    outs = ctx.driver.ask(b.lines)
+    for (_, op, inp, exp), got in zip(b.meta, outs):
+        if got == "outside":
+            ctx.branch("tub:model-outside")
+        elif exp != got:
+            ctx.disagree(op, inp, exp, got)
+        else:
+            ctx.branch("tub:model-tied")
+    b.lines, b.meta = [], []
+
+
+def run_tubytes(ctx: C.Ctx) -> None:
+    rng = ctx.rng
+    b = Batch(ctx, auto=False)
+    for i in range(ctx.n(300, 10000)):
+        r = i % 4
+        if r < 2:          # in-grammar program, conformant spelling: implementation vs spec vs byte-level model
+            secs = gen_sections(rng, wild=False)
+            check_tubytes(ctx, b, spell_seq(rng, render_sections(secs), True) + rng.choice([b"", b"\n", b" "]), secs,
+                          "grammar")
+        elif r == 2:       # token soup (wrong operand types, cid sections, stray brackets), any spelling: tie
+            toks = gen_wild_tokens(rng)
+            if rng.random() < 0.5:
+                toks = HEADER_TOKS + toks
+            data = spell_seq(rng, toks, False)
+            if rng.random() < 0.2:
+                data += rng.choice([b" ]", b"] <41> <0042> endbfchar", b" [ <41>"])
+            check_tubytes(ctx, b, data, None, "wild")
+        else:              # outside the modelled object grammar: the model must say so (or agree)
+            secs = gen_sections(rng, wild=False, nsec=1)
+            data = spell_seq(rng, render_sections(secs), False)
+            data = rng.choice([b"<< /A 1 >> ", b"[ 1 foo ] ", b"true ", b"{ 1 } ", b"[ [ 1 ] ] "]) + data
+            check_tubytes(ctx, b, data, None, "outside")
+    flush_tub(ctx, b)
+
+
 def replay(ctx: C.Ctx, doc, from_corpus: bool = False) -> None:
     inp = doc.get("input", {})
     g = inp.get("group")
@@ -2525,6 +2650,9 @@ def replay(ctx: C.Ctx, doc, from_corpus: bool = False) -> None:
             if not close(exp, got):
                 ctx.fail(C.Failure("CID font: width of a cid differs from W/DW (W2/DW2)", inp, str(exp), got,
                                    {"group": "fontwidth", "vertical": vertical}))
+    elif g == "tubytes":
+        check_tubytes(ctx, b, bytes.fromhex(inp["data"]),
+                      [parse_sec_word(w) for w in inp["sections"]] if inp.get("sections") else None, "replay", "replay")
     elif g == "fontglue":
         cfg = {k: v for k, v in inp.items() if k != "cid"}
         lines, meta = [], []
@@ -2586,6 +2714,7 @@ def run(ctx: C.Ctx) -> None:
     run_fontwidth(ctx)
     run_fontglue(ctx)
     run_cidsec(ctx)
+    run_tubytes(ctx)
     run_ttf(ctx)
     run_doc(ctx)
     run_codec(ctx)
